@@ -303,13 +303,14 @@ class Routine(Node):
 
 
 class Macro(Node):
-    __slots__ = ("name", "params", "body")
+    __slots__ = ("name", "params", "body", "file")
 
     def __init__(self, name, params, body):
         super().__init__()
         self.name = name
         self.params = tuple(params)
         self.body = tuple(body)
+        self.file = None  # path relative to the compiled file's directory, None = the compiled file itself
 
     def key(self):
         return ("macro", self.name, self.params, tuple(s.key() for s in self.body))
@@ -387,6 +388,7 @@ class Renderer:
         self.depth = 0
         self.at_line_start = True
         self.tokens = []  # (text, line, col) for every token written, in order
+        self._seen = set()
 
     # -- low level
     def _raw(self, text):
@@ -407,7 +409,8 @@ class Renderer:
         elif space:
             self._raw(" ")
         p = (self.line, self.col)
-        if node is not None and node.pos is None:
+        if node is not None and id(node) not in self._seen:
+            self._seen.add(id(node))
             node.pos = p
         self.tokens.append((text, p[0], p[1]))
         self._raw(text)
@@ -585,6 +588,7 @@ class Renderer:
                 self.tok("if" if i == 0 else "elseif", s if i == 0 else b)
                 if i == 0:
                     b.pos = s.pos
+                    self._seen.add(id(b))
                 self.conds(b.neg, b.conds)
                 self.body(b.body)
             if s.else_body is not None:
